@@ -292,8 +292,10 @@ theorem readString_valid (s rest : Bytes) (hv : utf8Valid s = true) :
 theorem plain_ne (c : UInt8) (h : plainByte c) : c ≠ 0x22 ∧ c ≠ 0x5C :=
   ⟨ne_of_toNat_ne h.2.2.1, ne_of_toNat_ne h.2.2.2⟩
 
-theorem readString_invalid (s rest : Bytes) (hv : utf8Valid s = false) :
-    readString (writeString s ++ rest) = .ok s (writeString s).length := by
+/-- the base64 object form is accepted for any content (valid UTF-8 or not) -/
+theorem readString_b64_form (s rest : Bytes) :
+    readString ([0x7B, 0x22, 0x62, 0x61, 0x73, 0x65, 0x36, 0x34, 0x22, 0x3A, 0x22] ++ b64encode s ++ [0x22, 0x7D] ++ rest)
+      = .ok s (([0x7B, 0x22, 0x62, 0x61, 0x73, 0x65, 0x36, 0x34, 0x22, 0x3A, 0x22] ++ b64encode s ++ [0x22, 0x7D] : Bytes)).length := by
   have hp := b64encode_plain s
   have hscan : scanString (b64encode s ++ 0x22 :: 0x7D :: rest) = some (b64encode s, 0x7D :: rest) := by
     have := scan_plain_prefix (b64encode s) (0x22 :: 0x7D :: rest) [] (0x7D :: rest) (fun b hb => plain_ne b (hp b hb))
@@ -306,7 +308,6 @@ theorem readString_invalid (s rest : Bytes) (hv : utf8Valid s = false) :
     have := scan_plain_prefix [0x62, 0x61, 0x73, 0x65, 0x36, 0x34] (0x22 :: 0x3A :: 0x22 :: (b64encode s ++ 0x22 :: 0x7D :: rest)) []
       (0x3A :: 0x22 :: (b64encode s ++ 0x22 :: 0x7D :: rest)) (by decide) (by rw [scanString.eq_def]; simp)
     simpa using this
-  rw [writeString_invalid s hv]
   unfold readString
   simp only [List.cons_append, List.append_assoc, List.nil_append]
   rw [fetchToken]
@@ -318,6 +319,10 @@ theorem readString_invalid (s rest : Bytes) (hv : utf8Valid s = false) :
   rw [readB64Object, fetchToken]
   simp [isWS]
   omega
+
+theorem readString_invalid (s rest : Bytes) (hv : utf8Valid s = false) :
+    readString (writeString s ++ rest) = .ok s (writeString s).length := by
+  rw [writeString_invalid s hv]; exact readString_b64_form s rest
 
 /-- C34 (strings): the generated reader, run on what `JSONWriteString` wrote followed by anything, returns exactly the
 written bytes and stops right after them — for every byte string -/
